@@ -394,11 +394,33 @@ def r3(ctx):
             env.setdefault(n.targets[0].id, []).append(n.value)
     env1 = {k: vs[0] for k, vs in env.items() if len(vs) == 1}
 
+    # the list whose elements are paired: the base of the merge operands; it may be the candidate list sorted in place, or a sorted copy of it
+    mm0 = [c for c in calls(f.node, tail="merge")]
+    PL = "plates"
+    SRC = "plates"
+    if mm0:
+        lenv0 = {}
+        for n_ in walk_own(f.node):
+            if isinstance(n_, ast.Assign) and len(n_.targets) == 1 and isinstance(n_.targets[0], ast.Name):
+                lenv0.setdefault(n_.targets[0].id, []).append(n_.value)
+        o_ = mm0[0].func.value
+        o_ = lenv0[o_.id][0] if isinstance(o_, ast.Name) and len(lenv0.get(o_.id, [])) == 1 else o_
+        if isinstance(o_, ast.Subscript) and isinstance(o_.value, ast.Name):
+            PL = o_.value.id
+            d_ = [v for v in env.get(PL, [])]
+            for v in d_:
+                if isinstance(v, ast.Call) and call_name(v) == "sorted" and v.args and isinstance(v.args[0], ast.Name):
+                    SRC = v.args[0].id
+            if SRC == "plates" and PL != "plates" and not any(isinstance(v, ast.Call) and call_name(v) == "sorted" for v in d_):
+                SRC = PL
+
     def T(x):
-        return U(inline(x, {k: v for k, v in env1.items() if k != "plates"})).replace(" ", "")
-    HALF = ("math.floor(len(plates)/2)", "len(plates)//2", "int(len(plates)/2)")
-    srt = any(U(v).replace(" ", "") == "sorted(plates,key=lambdax:x.size)" for v in env.get("plates", [])) or \
-        any(attr_tail(c) == "sort" and U(c.func.value) == "plates" and {k.arg: U(k.value).replace(" ", "") for k in c.keywords} == {"key": "lambdax:x.size"} for c in calls(f.node))
+        return U(inline(x, {k: v for k, v in env1.items() if k not in (PL, SRC)})).replace(" ", "")
+    HALF = tuple(f_.format(L=L_) for L_ in {PL, SRC} for f_ in ("math.floor(len({L})/2)", "len({L})//2", "int(len({L})/2)"))
+    key_ok = lambda t_: t_ in ("lambdax:x.size", "lambdap:p.size", "lambdaplate:plate.size", "operator.attrgetter('size')", "attrgetter('size')")
+    srt = any(isinstance(v, ast.Call) and call_name(v) == "sorted" and v.args and U(v.args[0]) in (SRC, PL) and key_ok({k.arg: U(k.value).replace(" ", "") for k in v.keywords}.get("key", ""))
+              and len(v.keywords) == 1 for v in env.get(PL, [])) or \
+        any(attr_tail(c) == "sort" and U(c.func.value) == PL and len(c.keywords) == 1 and key_ok({k.arg: U(k.value).replace(" ", "") for k in c.keywords}.get("key", "")) for c in calls(f.node))
     mm_all = [c for c in calls(f.node, tail="merge")]
     ok = False
     zl = [n for n in walk_own(f.node) if isinstance(n, ast.For) and isinstance(n.iter, ast.Call) and call_name(n.iter) == "zip"]
@@ -408,7 +430,7 @@ def r3(ctx):
         a0, a1 = [x for x in z.iter.args]
         def head(x):
             return isinstance(x, ast.Subscript) and isinstance(x.slice, ast.Slice) and x.slice.lower is None and x.slice.step is None and x.slice.upper is not None and T(x.slice.upper) in HALF
-        ok = srt and head(a0) and U(a0.value) == "plates" and head(a1) and U(a1.value).replace(" ", "") in ("list(reversed(plates))", "plates[::-1]")
+        ok = srt and head(a0) and U(a0.value) == PL and head(a1) and U(a1.value).replace(" ", "") in (f"list(reversed({PL}))", f"{PL}[::-1]")
         mm = [c for c in calls(z, tail="merge")]
         sm, bg = [U(t) for t in z.target.elts]
         ok = ok and len(mm) == 1 and {U(mm[0].func.value), U(mm[0].args[0])} == {sm, bg}
@@ -421,13 +443,13 @@ def r3(ctx):
             ops = [inline(mm[0].func.value, lenv), inline(mm[0].args[0], lenv)]
             idx = []
             for o in ops:
-                if isinstance(o, ast.Subscript) and U(o.value) == "plates":
-                    idx.append(inline(o.slice, {k_: v for k_, v in env1.items() if k_ != "plates"}))
+                if isinstance(o, ast.Subscript) and U(o.value) == PL:
+                    idx.append(inline(o.slice, {k_: v for k_, v in env1.items() if k_ not in (PL, SRC)}))
             if len(idx) == 2:
                 N2 = Norm(strict=False)
                 keys = {N2.key(x) for x in idx}
                 lo = N2.key(parse_expr(k))
-                his = {N2.key(parse_expr(f"len(plates) - 1 - {k}")), N2.key(parse_expr(f"-1 - {k}")), N2.key(parse_expr(f"-({k} + 1)"))}
+                his = {N2.key(parse_expr(f"len({PL}) - 1 - {k}")), N2.key(parse_expr(f"len({SRC}) - 1 - {k}")), N2.key(parse_expr(f"-1 - {k}")), N2.key(parse_expr(f"-({k} + 1)"))}
                 ok = srt and lo in keys and bool(keys & his) and len(keys) == 2
     else:
         raise AnalysisError(f"{f.site()}: pairing loop not found (neither zip(smallest half, largest half) nor an index loop over half the list)")
